@@ -258,6 +258,20 @@ func c15One(run *ev.Run, env *c15Env, p c15P) {
 			return
 		}
 	}
+	if ((p.Raw+p.K1+p.M)%3+3)%3 == 1 {
+		// a read the BMC FAILS (non-temporary completion code) while leaving well-formed reading bytes
+		// behind the code: it is a failure, not a reading and not a flag
+		code := []byte{0xcb, 0xd3, 0xd5, 0xff, 0xc1, 0xcc}[((p.Raw+p.B)%6+6)%6]
+		env.sd.FailNextWithBody(code, []byte{byte(p.Raw ^ 0x5a), []byte{0x40, 0x00, 0x60, 0x20}[(p.Raw+p.K2)&3], 0x00})
+		ctx, cancel := bg(10 * time.Second)
+		v, ferr := rd.Read(ctx, env.sess)
+		cancel()
+		run.Event("failed-reads-with-body-in-between", 1)
+		if ferr == nil || errors.Is(ferr, bmc.ErrSensorReadingUnavailable) || errors.Is(ferr, bmc.ErrSensorScanningDisabled) {
+			run.Violation("C15:failed-read-converted", fmt.Sprintf("a Get Sensor Reading the BMC failed with completion code %#x (reading bytes left behind the code) returned value %v err=%v", code, v, ferr), ev.MkCase("one", p), nil)
+			return
+		}
+	}
 	q := p
 	q.Raw = (p.Raw*7 + 13) & 0xff
 	switch (p.Raw + p.M) % 4 {
